@@ -39,6 +39,10 @@ def check(run):
     st = run.explore('real run: streams of 1..2 library messages, whole or byte-wise, a transport error injected at every call position of the real read / write / flush sequence: returned unchanged, at once, never Ok',
                      LIB + ({'k': 2, 'N': 16, 'max_len': 16, 'fault': True},), 1200)
     records.extend(st['records'])
+    for N in (6, 8):
+        st = run.explore(f'real run: streams of 1..3 library messages of at most {N} bytes each, N={N}, one message per read (a controller that waits for each answer) or as much as fits per read: '
+                         'every answered message is answered before the next read (buffer fill levels that add up to exactly N included)', LIB + ({'k': 3, 'N': N, 'max_len': 24, 'lockstep': True},), 900)
+        records.extend(st['records'])
     cov['vacuity']['real_run_executions_that_wrote_a_response'] = wrote
     if wrote == 0:
         raise Inconclusive('no real-run execution produced a response')
